@@ -4,7 +4,7 @@ Verifies first that the differential demo prints the same digest on the original
 /verif/benign/<PID>_<V>/ (patch.diff, meta.json). Exit codes per check: 0 good, 2 = undecided (tolerated, noted), 1 = FALSE ALARM."""
 import json, os, shutil, subprocess, sys, py_compile
 pid, var = sys.argv[1], sys.argv[2]
-src = "/tmp/ben_out/%s" % pid
+src = "%s/%s" % (os.environ.get("BEN_OUT", "/tmp/ben_out"), pid)
 wt = "/tmp/bconf_%s_%s" % (pid, var)
 VERIF = "/verif"
 PY = "/venv/bin/python"
